@@ -51,6 +51,7 @@ def generate(seed, mode):
     nops = w.randint(4, 25)
     specarg_world = h64(seed, 'class-specifications-as-arguments') % 3 == 0
     typedecl_world = h64(seed, 'declarations-for-the-builtin-type') % 4 == 0
+    reenter_decl_world = h64(seed, 're-entrant-declarations') % 3 == 0
     ops = []
 
     def xs(kmax=2, allow_empty=False):
@@ -86,6 +87,10 @@ def generate(seed, mode):
             ops.append({'op': 'newob', 'c': o.randrange(16), 'k': k})
         elif r < 0.38:
             ops.append({'op': 'cimpl', 'c': o.randrange(16), 'xs': xs(), 'v': o.randrange(4), 'k': k})
+            if reenter_decl_world and o.random() < 0.3:
+                # fault `cb-reenter` inside a declaration: a dependent of the class's specification declares something for the
+                # class itself or one of its ancestors from inside the change notification
+                ops[-1]['reenter'] = {'t': o.randrange(16), 'x': o.randrange(nI)}
         elif r < 0.47:
             ops.append({'op': 'conly', 'c': o.randrange(16), 'xs': xs(2, True), 'v': o.randrange(2), 'k': k})
         elif r < 0.61:
@@ -302,7 +307,7 @@ def execute(program, ctx, mode):
                                 classImplementsOnly, classImplementsFirst, directlyProvides,
                                 alsoProvides, noLongerProvides, provider, providedBy,
                                 implementedBy, directlyProvidedBy)
-    from zope.interface.interface import InterfaceClass
+    from zope.interface.interface import InterfaceClass, adapter_hooks
     from zope.interface import declarations as zd
     from zope.interface.adapter import AdapterRegistry
 
@@ -385,6 +390,7 @@ def execute(program, ctx, mode):
     # of that class's instances from inside its change notification.  When a specification notifies its dependents its own
     # resolution order is already recomputed, so at the *last* notification within one declaration call every ancestor is
     # final and the proxies must already show the final state (DESIGN.md 3/C19).
+    keepalive = []
     spies = []
     spy_world = want_super and h64(program.get('seed') or 0, 'spy-world') % 2 == 0
 
@@ -604,6 +610,16 @@ def execute(program, ctx, mode):
                         r = reg.adapter_hook(P, sup, '', dflt)
                     else:
                         r = reg.queryMultiAdapter((sup,), P, '', dflt)
+                    if meth == 'queryAdapter':
+                        # calling the interface with the registry's hook installed is the same question
+                        adapter_hooks.append(reg.adapter_hook)
+                        try:
+                            r2 = P(sup, dflt)
+                        finally:
+                            adapter_hooks.remove(reg.adapter_hook)
+                        if (r2 is dflt) != (r is dflt) or (r2 is not dflt and (r2[1] != r[1] or r2[2] is not r[2])):
+                            ctx.violation('C19', 'super-call', 'C19|P(super)|differs-from-queryAdapter(super)',
+                                          {'ob': o, 'k': kk, 'call': repr(r2)[:80], 'query': repr(r)[:80]})
                     if r is dflt:
                         if slo:
                             ctx.violation('C19', 'super-adapt-none', 'C19|%s(super)|no-adapter' % meth,
@@ -681,7 +697,9 @@ def execute(program, ctx, mode):
             primed = prime(k) if name not in ('gc', 'perm', 'query') else []
             for b_ in bombs:
                 b_.armed = False
-            if bombs and name in ('cimpl', 'conly') and h64(k, 'arm-bomb') % 3 == 0:
+            if bombs and name in ('cimpl', 'conly') and h64(k, 'arm-bomb') % 3 == 0 and not op.get('reenter'):
+                # (not together with a re-entrant declaration: a notification that fails *inside* the nested declaration
+                # leaves part of the graph untold, and nothing says which part)
                 bombs[h64(k, 'which-bomb') % len(bombs)].armed = True
             if name == 'gc':
                 n = gc.collect()
@@ -758,6 +776,23 @@ def execute(program, ctx, mode):
                     ctx.probe('elision-possible')
                 M.class_implements(c, xs)
                 args = [ifs[x] for x in xs]
+                if op.get('reenter') and not M.classes[c].get('slots'):
+                    anc = sorted(M.ancestors(c))
+                    t_ = anc[op['reenter']['t'] % len(anc)]
+                    x_ = op['reenter']['x'] % nI
+                    fired_ = []
+
+                    class Declarer:
+                        def changed(self_, originally_changed):
+                            if fired_:
+                                return
+                            fired_.append(1)
+                            ctx.fault('cb-reenter-declaration-in-change-notification')
+                            M.class_implements(t_, [x_])
+                            classImplements(classes[t_], ifs[x_])
+                    d_ = Declarer()
+                    keepalive.append(d_)
+                    implementedBy(classes[c]).subscribe(d_)
                 if v == 0:
                     classImplements(classes[c], *args)
                 elif v == 1:
@@ -994,6 +1029,11 @@ def execute(program, ctx, mode):
                 raise ValueError('unknown op %r' % (name,))
             for b_ in bombs:
                 b_.armed = False
+            if spies and name == 'cimpl' and op.get('reenter'):
+                # the observer's rule (the last notification of a declaration call sees the final state) does not cover a call
+                # that contains a second declaration on a class the observed specification does not depend on
+                for spy in spies:
+                    spy.seen = {}
             if spies:
                 check_spies()
             if primed:
